@@ -63,8 +63,10 @@ def evaluate(m):
     finally:
         open(path, "wb").write(src)
 
-def run(limit, workers):
-    global CHECKER
+def run(limit, workers, skip=0):
+    global CHECKER, OUT
+    if skip:
+        OUT = OUT.replace(".jsonl", "_%d.jsonl" % skip)
     CHECKER = os.path.join(tempfile.mkdtemp(prefix="ankosweepbin."), "ankocheck")  # a private copy: the checker may be rebuilt meanwhile
     shutil.copy(os.path.join(VERIF, "bin/ankocheck"), CHECKER)
     dirs.append(os.path.dirname(CHECKER))
@@ -73,6 +75,7 @@ def run(limit, workers):
     for l in p.stdout.splitlines():
         muts.append(json.loads(l))
     random.Random(1).shuffle(muts)
+    muts = muts[skip:]
     if limit:
         muts = muts[:limit]
     done = 0
@@ -136,13 +139,14 @@ def report():
 
 if __name__ == "__main__":
     if len(sys.argv) > 1 and sys.argv[1] == "run":
-        limit, workers = 0, 10
+        limit, workers, skip = 0, 10, 0
         a = sys.argv[2:]
         while a:
             if a[0] == "--limit": limit = int(a[1]); a = a[2:]
             elif a[0] == "--workers": workers = int(a[1]); a = a[2:]
+            elif a[0] == "--skip": skip = int(a[1]); a = a[2:]
             else: a = a[1:]
-        run(limit, workers)
+        run(limit, workers, skip)
     elif len(sys.argv) > 1 and sys.argv[1] == "recheck":
         recheck(12)
     else:
